@@ -258,7 +258,8 @@ class C02(Property):
         entry, alpha = d.get("entry"), d["alpha"]
         if entry == "iter" and not im._is_animated:
             entry = "format"
-        if entry == "drawanim" and (op != "want" or not im._is_animated):
+        if entry == "drawanim" and (op != "want" or not im._is_animated
+                                    or im.rendered_height > 90 or im.rendered_width > 190):  # draw() validates the size
             entry = "format"
         if entry in ("format", "iter") and isinstance(alpha, float):
             # a format specifier can only spell thresholds in [0, 1) in positional notation
